@@ -120,6 +120,7 @@ fn lazy_scenario() -> SimResult {
             })
             .collect();
         tr!("T{}: {:?}", t, ops);
+        let rev = draw(2) == 1;
         let mut handle = Some(shared.clone());
         let errs = errs.clone();
         let decoded = decoded.clone();
@@ -179,7 +180,6 @@ fn lazy_scenario() -> SimResult {
                 }
             }
             // drop what is left, in drawn order
-            let rev = !kept.is_empty() && draw(2) == 1;
             let r = libcall("drop at thread end", move || {
                 if rev {
                     kept.reverse();
@@ -332,6 +332,7 @@ fn owned_scenario() -> SimResult {
             })
             .collect();
         tr!("T{}: {:?}", t, ops);
+        let rev = draw(2) == 1;
         let mut handle = Some(shared.clone());
         let errs = errs.clone();
         let model = model.clone();
@@ -388,7 +389,6 @@ fn owned_scenario() -> SimResult {
                     break;
                 }
             }
-            let rev = !kept.is_empty() && draw(2) == 1;
             let r = libcall("drop at thread end", move || {
                 if rev {
                     kept.reverse();
